@@ -145,66 +145,99 @@ def check_case(name, m, t, no_prss, seed, mode, victim, K, eof, ref):
     return net, status, None
 
 
+def _unit(a):
+    """all crash points of one (configuration, program, victim): runs in a worker process"""
+    import random
+    name, m, t, no_prss, victim, seed, mode, thorough, max_lines, sub = a
+    rng = random.Random(sub)
+    out = {'args': a, 'cases': [], 'counts': {}, 'violation': None, 'mismatch': None, 'lines': [], 'exps': [], 'metas': [],
+           'sample': None}
+
+    def count(k):
+        out['counts'][k] = out['counts'].get(k, 0) + 1
+    ref, marks, total = reference(name, m, t, no_prss, seed, mode, victim)
+    if ref is None:
+        out['mismatch'] = (f'crash-free reference run of {name} (m={m}, t={t}) does not complete: {marks}',
+                           {'kind': 'reference', 'program': name, 'm': m, 't': t, 'no_prss': no_prss, 'seed': seed, 'mode': mode})
+        return out
+    pts = crash_points(total, marks, thorough and m <= 3)
+    if not thorough and len(pts) > 60:
+        pts = sorted(rng.sample(pts, 60))
+    for K in pts:
+        for eof in ((True, False) if (K % 3 == 0 or thorough) else (True,)):
+            net, status, msg = check_case(name, m, t, no_prss, seed, mode, victim, K, eof, ref)
+            inside = 0 < K < total
+            out['cases'].append(((name, m, t, no_prss, seed, victim, K, eof), inside and status != 'ok'))
+            count('program:' + name)
+            count('status:' + status.split(':')[0])
+            count('where:' + ('boundary' if K in marks else 'inside-frame'))
+            if msg:
+                out['violation'] = ('C36: ' + msg, {'kind': 'crash', 'program': name, 'm': m, 't': t, 'no_prss': no_prss,
+                                                    'seed': seed, 'mode': mode, 'victim': victim, 'K': K, 'eof': eof})
+                return out
+            # replay the truncated streams the victim's peers actually received through the Lean parser
+            if len(out['lines']) < max_lines and (K in marks or (K + 1) in marks or (K - 1) in marks):
+                for j in range(m):
+                    if j == victim or (victim, j) not in net.wire:
+                        continue
+                    stream = bytes(net.wire[(victim, j)])
+                    if not stream or len(stream) > 6000:
+                        continue
+                    hs_len = 0
+                    role = f'client:{victim}'
+                    np_, kb = (1 if no_prss else 0), 0
+                    if victim < j:
+                        kb = 0 if no_prss else 16 * len(net.rts[victim]._prss_keys_to_peer(j))
+                        hs_len = 2 + kb
+                        role = 'server'
+                    if len(stream) < hs_len:
+                        continue
+                    hs, frames, rest = parse_frames(stream, hs_len)
+                    out['lines'].append(f'run {role} {np_} 0 {kb} f:{stream.hex()}')
+                    evs = []
+                    if role == 'server':
+                        evs.append(f'H:{victim}:{hs[2:].hex() if len(hs) > 2 else "-"}')
+                    evs += [f'S:{pc}:{pl.hex() if pl else "-"}' for pc, pl in frames]
+                    out['exps'].append(';'.join(evs) + f'|buf={rest.hex() if rest else "-"}|peer={victim}|buffers=' +
+                                       ','.join(f'{pc}=P{pl.hex() if pl else "-"}' for pc, pl in sorted(frames)))
+                    out['metas'].append(f'{name} m={m} victim={victim} K={K} to {j}')
+    out['sample'] = {'program': name, 'm': m, 't': t, 'victim': victim, 'total_bytes': total, 'crash_points': len(pts),
+                     'reference_outputs_party0': ref[0]}
+    return out
+
+
 def run(ctx):
+    import multiprocessing as mp
     rng = ctx.rng
     lines, exps, metas = [], [], []
     cfgs = [(3, 1, False), (3, 1, True), (5, 2, False)] if not ctx.thorough else \
         [(3, 1, False), (3, 1, True), (5, 2, False), (5, 2, True), (4, 1, False)]
+    units = []
     for (m, t, no_prss) in cfgs:
         for name in progs():
             for victim in ([0, m - 1] if not ctx.thorough else range(m)):
                 seed = rng.randrange(10**9)
                 mode = rng.choice(['random', 'lazynet', 'eagernet'])
-                ref, marks, total = reference(name, m, t, no_prss, seed, mode, victim)
-                if ref is None:
-                    ctx.mismatch(f'crash-free reference run of {name} (m={m}, t={t}) does not complete: {marks}',
-                                 {'kind': 'reference', 'program': name, 'm': m, 't': t, 'no_prss': no_prss, 'seed': seed, 'mode': mode})
-                    continue
-                pts = crash_points(total, marks, ctx.thorough and m <= 3)
-                if not ctx.thorough and len(pts) > 60:
-                    pts = sorted(rng.sample(pts, 60))
-                for K in pts:
-                    for eof in ((True, False) if (K % 3 == 0 or ctx.thorough) else (True,)):
-                        net, status, msg = check_case(name, m, t, no_prss, seed, mode, victim, K, eof, ref)
-                        inside = 0 < K < total
-                        ctx.case((name, m, t, no_prss, seed, victim, K, eof), nontrivial=inside and status != 'ok')
-                        ctx.count('program:' + name)
-                        ctx.count('status:' + status.split(':')[0])
-                        ctx.count('where:' + ('boundary' if K in marks else 'inside-frame'))
-                        if msg:
-                            ctx.violation('C36: ' + msg, {'kind': 'crash', 'program': name, 'm': m, 't': t,
-                                                          'no_prss': no_prss, 'seed': seed, 'mode': mode,
-                                                          'victim': victim, 'K': K, 'eof': eof})
-                            return
-                        # replay the truncated streams the victim's peers actually received through the Lean parser
-                        if len(lines) < ctx.scale(400, 3000) and (K in marks or (K + 1) in marks or (K - 1) in marks):
-                            for j in range(m):
-                                if j == victim or (victim, j) not in net.wire:
-                                    continue
-                                stream = bytes(net.wire[(victim, j)])
-                                if not stream or len(stream) > 6000:
-                                    continue
-                                hs_len = 0
-                                role = f'client:{victim}'
-                                np_, kb = (1 if no_prss else 0), 0
-                                if victim < j:
-                                    kb = 0 if no_prss else 16 * len(net.rts[victim]._prss_keys_to_peer(j))
-                                    hs_len = 2 + kb
-                                    role = 'server'
-                                if len(stream) < hs_len:
-                                    continue
-                                hs, frames, rest = parse_frames(stream, hs_len)
-                                lines.append(f'run {role} {np_} 0 {kb} f:{stream.hex()}')
-                                evs = []
-                                if role == 'server':
-                                    evs.append(f'H:{victim}:{hs[2:].hex() if len(hs) > 2 else "-"}')
-                                evs += [f'S:{pc}:{pl.hex() if pl else "-"}' for pc, pl in frames]
-                                exps.append(';'.join(evs) + f'|buf={rest.hex() if rest else "-"}|peer={victim}|buffers=' +
-                                            ','.join(f'{pc}=P{pl.hex() if pl else "-"}' for pc, pl in sorted(frames)))
-                                metas.append(f'{name} m={m} victim={victim} K={K} to {j}')
-                if len(ctx.samples) < 3:
-                    ctx.sample({'program': name, 'm': m, 't': t, 'victim': victim, 'total_bytes': total,
-                                'crash_points': len(pts), 'reference_outputs_party0': ref[0]})
+                units.append((name, m, t, no_prss, victim, seed, mode, ctx.thorough, ctx.scale(20, 60), rng.randrange(10**9)))
+    with mp.get_context('fork').Pool(min(4, len(units))) as pool:      # shared machine: at most 4 workers
+        results = pool.map(_unit, units, chunksize=1)
+    for out in results:
+        for key, nontriv in out['cases']:
+            ctx.case(key, nontrivial=nontriv)
+        for k, v in out['counts'].items():
+            ctx.count(k, v)
+        if out['mismatch']:
+            ctx.mismatch(*out['mismatch'])
+            continue
+        if out['violation']:
+            ctx.violation(*out['violation'])
+            break
+        if len(lines) < ctx.scale(400, 3000):
+            lines += out['lines']
+            exps += out['exps']
+            metas += out['metas']
+        if out['sample'] and len(ctx.samples) < 3:
+            ctx.sample(out['sample'])
     model = common.LeanDriver('Frame').run(lines)
     ctx.compare('truncated streams (independent parser vs MpycV.Frame)', exps, model, metas)
 
